@@ -110,12 +110,15 @@ func init() {
 		Rule: "G-exact: random target over concrete types in every form; one supplied value with exactly each parameter's key; near-miss distractor inputs; 0-6 distractor converters " +
 			"(general, same-named chains a:T'->a:T with a:T'/y supplied, providers of the exact label, converters from other inputs, bidirectional pairs; some failing, some run-once); options shuffled; R repetitions. " +
 			"Oracle: success, zero converter events, each named parameter received the id supplied under its own key, each type-only parameter an id supplied as input with exactly its type. " +
-			"half of the successful repetitions call the SAME Func again with fresh values; one case in four supplies the zero value of a type as an exact input; one in four passes the type-only inputs through ONE Typed(nil, a, nil, b) option; " +
+			"half of the successful repetitions call the SAME Func again with fresh values; one case in eight is a history on a target Func with a subtyped default value zz:T/dflt, alternating calls with and without one more value zz:T/lk (every argument of a call must be one of that call's own inputs); one case in four supplies the zero value of a type as an exact input; one in four passes the type-only inputs through ONE Typed(nil, a, nil, b) option; one in five hands all inputs over as ValueSet.Args() of a set filled with FromSignature; " +
 			"non-trivial = at least one distractor converter whose output is MAY-compatible with some parameter",
 		Assumptions: []string{"interface-typed parameters are excluded (no supplied value can have exactly an interface type)", "6 concrete types, names {a,b,c,d}, subtypes {x,y,z}"},
 		Run: func(c *CaseCtx) CaseResult {
 			var res CaseResult
 			r := caseRand(c.Seed, "C03", c.Idx)
+			if c.Idx%8 == 3 {
+				return runC03DefaultsHistory(c, r)
+			}
 			s, exact := genExact(r, true)
 			res.Key = s.Key()
 			for _, cv := range s.Convs {
@@ -180,7 +183,11 @@ func init() {
 			if grouped {
 				res.obs("cases_with_grouped_typed_inputs", 1)
 			}
-			outs, _ := runScenarioX(c, s, r, reps, &res, func(in *Inst) { in.ZeroInput1 = zero + 1; in.GroupTyped = grouped }, func(in *Inst, o *Outcome) { checkExact(in, o, false) })
+			viaSet := !grouped && r.Intn(4) == 0
+			if viaSet {
+				res.obs("cases_with_inputs_through_ValueSet.Args", 1)
+			}
+			outs, _ := runScenarioX(c, s, r, reps, &res, func(in *Inst) { in.ZeroInput1 = zero + 1; in.GroupTyped = grouped; in.ViaSet = viaSet }, func(in *Inst, o *Outcome) { checkExact(in, o, false) })
 			res.obs("distractor_converters", int64(len(s.Convs)))
 			res.Sample = sampleOf(s, outs)
 			return res
@@ -198,7 +205,7 @@ func init() {
 		Cases: func(t string) int { return tierN(t, 10000, 200000) },
 		Rule: "constructive chains/DAGs (depth 1-6, multi-input, struct/pointer/built/positional results, run-once) with each converter independently failing (p=0.3) and the target failing (p=0.15); " +
 			"oracle: Err() is identical (==) to the first failing body's error value, that event is the last of the call, the target did not run; no error => nothing failed; target error => Err() is it and Len() = non-error arity; " +
-			"a second call on the same objects re-checks run-once failures (cached error returned verbatim, body not re-run); in one case in five the failing bodies return an error VALUE of type *ErrArgumentUnsatisfied (taken from an inner unsatisfiable call), which must come back verbatim all the same. non-trivial = a failing converter actually executed",
+			"a second call on the same objects re-checks run-once failures (cached error returned verbatim, body not re-run); in one case in five the failing bodies return an error VALUE of type *ErrArgumentUnsatisfied (taken from an inner unsatisfiable call), which must come back verbatim all the same; in one case in six they return a non-nil error whose dynamic value is a zero value (stateless sentinel struct, integer code 0, typed nil pointer, empty string type). non-trivial = a failing converter actually executed",
 		Assumptions: []string{"error identity is compared with == on the interface value (pointer identity of the generated error)"},
 		Run: func(c *CaseCtx) CaseResult {
 			var res CaseResult
@@ -215,7 +222,13 @@ func init() {
 			if unsatErrs {
 				res.obs("cases_with_unsatisfied_typed_error_values", 1)
 			}
-			outs, _ := runScenarioX(c, s, r, reps, &res, func(in *Inst) { in.W.UnsatErrors = unsatErrs }, func(in *Inst, o *Outcome) {
+			zeroErrs := 0
+			if !unsatErrs && r.Intn(5) == 0 {
+				// non-nil errors whose dynamic value is a zero value
+				zeroErrs = 1 + r.Intn(4)
+				res.obs("cases_with_zero_valued_error_values", 1)
+			}
+			outs, _ := runScenarioX(c, s, r, reps, &res, func(in *Inst) { in.W.UnsatErrors = unsatErrs; in.W.ZeroErrors = zeroErrs }, func(in *Inst, o *Outcome) {
 				det := map[string]interface{}{"scenario": s.String(), "class": o.Class, "err": firstLine(errStr(o.Err)), "events": eventsStr(o.Events), "unsat_typed_errors": unsatErrs}
 				for _, e := range o.Events {
 					if e.Err != nil && e.Func >= 0 {
@@ -338,13 +351,23 @@ func init() {
 			case x < 90:
 				s, _ = Constructive(r, ChainCfg{MaxTgt: 2, MaxDepth: 4, MultiIn: r.Intn(2) == 0, Distract: 1, FailP: 0.25, BuiltP: 0.1, Subtypes: true, Ifaces: true, ErrP: 0.3})
 				fam = "failing"
-			default:
+			case x < 95:
 				g := defaultCfg
 				if r.Intn(2) == 0 {
 					g.MaxConvIn = 1
 				}
 				s = g.Scenario(r)
 				fam = "general"
+			default:
+				s = sameNameUnnamed(r)
+				fam = "same-name-unnamed-types"
+			}
+			if fam != "same-name-unnamed-types" && r.Intn(8) == 0 {
+				// same model over unnamed / mutually assignable / func / chan types
+				s = exoticize(s, r)
+			}
+			if usesExotic(s) {
+				res.obs("cases_over_exotic_types", 1)
 			}
 			res.Key = s.Key()
 			cf := factsOf(&s)
@@ -373,6 +396,26 @@ func init() {
 				}
 				if convEvents(o.Events) > 0 {
 					res.NonTrivial = true
+				}
+				if o.Class == ClsPanic || r.Intn(3) != 0 {
+					return
+				}
+				// the same call again on the same objects, after an unrelated
+				// use wrote into the target's own input value set
+				if !touchInputSet(in.W, in.Target.Func, 40, r) {
+					return
+				}
+				n0 := in.W.NumEvents()
+				cfNow := factsNow(in)
+				o2 := DoCall(in.W, in.Target.Func, in.AllArgs(1, r))
+				res.Evals++
+				checkCall(in, &o2, &cfNow, 1, n0, &res)
+				res.obs("repeated_calls_after_writing_the_input_value_set", 1)
+				det2 := map[string]interface{}{"scenario": s.String(), "scope": scope, "first": o.Class, "again": o2.Class, "err": firstLine(errStr(o2.Err)), "panic": o2.Panic, "events": eventsStr(o2.Events)}
+				if o2.Class != ClsOK && !(o2.Class == ClsConvErr && anyFail) {
+					res.violate("C05", "incomplete/"+o2.Class, fmt.Sprintf("scope (%s): the same call on the same objects ended with %s after the target's input value set was written to", scope, o2.Class), det2)
+				} else if !anyFail && o2.Class != o.Class {
+					res.violate("C05", "unstable", fmt.Sprintf("outcome class changed on the same objects: %s vs %s", o.Class, o2.Class), det2)
 				}
 			})
 			if !anyFail && len(outs) > 0 {
@@ -416,7 +459,7 @@ func init() {
 			"oracle B: the explicit-name converter ran, the type-only one did not, the target's argument comes from the explicit one. All converter forms, typed or n-named output, with/without error, shuffled order, unrelated distractors; R repetitions. " +
 			"Mode C (1 case in 5): 2-3 named target parameters n_i:U all produced through ONE type-only converter T->U, each with its own same-named input n_i:T among other named T values; oracle: parameter n_i receives the output of an execution whose argument was the input named n_i. " +
 			"Mode D (1 in 5): the type-only converter has a second type-only input W that must itself be derived from T by another converter; oracle: the T argument of the main converter is still the input named n (which T feeds the nested conversion is not prescribed). " +
-			"Mode F: modes C and E combined (several named parameters through one type-only converter whose second input is supplied). Mode E: as D but the second input W is supplied directly (named 'flag', named like the parameter, or type-only), so the cheapest path may enter the converter through that argument. " +
+			"Mode G: a chain of two type-only converters T->M->U, each with a supplied second input; the T value converted at the bottom of the chain is still the input named n. Mode F: modes C and E combined (several named parameters through one type-only converter whose second input is supplied). Mode E: as D but the second input W is supplied directly (named 'flag', named like the parameter, or type-only), so the cheapest path may enter the converter through that argument. " +
 			"non-trivial = >= 2 competing named inputs (A, C, D, E) / both converters present (B)",
 		Assumptions: []string{"both competing converters declare the same output label (the property compares how they take their input)"},
 		Run: func(c *CaseCtx) CaseResult {
@@ -507,11 +550,27 @@ func init() {
 			if r.Intn(6) == 0 {
 				s.Target.InForm, s.Target.OutForm, s.Target.HasErr = FormBuilt, FormBuilt, true
 			}
+			// mode B, one case in four: the type-only converter is a shared
+			// run-once Func that an EARLIER call (offering it alone) has
+			// already executed; the converter that uses the name must still
+			// be the one that serves this call
+			onceHistory := mode == 1 && s.Convs[typeOnlyIdx].InForm != FormBuilt && r.Intn(4) == 0
+			if onceHistory {
+				s.Convs[typeOnlyIdx].Once, s.Convs[typeOnlyIdx].Deliver = true, DelFunc
+				res.obs("competitions_after_the_type_only_converter_was_memoized", 1)
+			}
 			res.Key = fmt.Sprintf("mode%d %s", mode, s.Key())
 			res.NonTrivial = true
 			reps := tierReps(c.Tier, 5, 20)
-			outs, _ := runScenario(c, s, r, reps, &res, func(in *Inst, o *Outcome) {
-				det := map[string]interface{}{"scenario": s.String(), "mode": mode, "class": o.Class, "err": firstLine(errStr(o.Err)), "events": eventsStr(o.Events)}
+			prep := func(in *Inst) {
+				if !onceHistory {
+					return
+				}
+				DoCall(in.W, in.Target.Func, append(in.InputArgs(7), in.ConvArgs[typeOnlyIdx]))
+				res.Evals++
+			}
+			outs, _ := runScenarioX(c, s, r, reps, &res, prep, func(in *Inst, o *Outcome) {
+				det := map[string]interface{}{"scenario": s.String(), "mode": mode, "class": o.Class, "err": firstLine(errStr(o.Err)), "events": eventsStr(o.Events), "type_only_converter_memoized_by_an_earlier_call": onceHistory}
 				if o.Class != ClsOK {
 					res.violate("C07", "not-ok", "affinity scenario did not succeed: "+o.Class, det)
 					return
@@ -581,7 +640,6 @@ func init() {
 	})
 }
 
-
 // runC07Multi: name affinity when several named parameters share one
 // type-only converter (mode C) and when the converter has a second input that
 // is itself derived from the same source type (mode D).
@@ -589,10 +647,42 @@ func runC07Multi(c *CaseCtx, r *rand.Rand, names []string) (res CaseResult) {
 	perm3 := r.Perm(nConcrete)
 	T, U, W := perm3[0], perm3[1], perm3[2]
 	perm := r.Perm(len(names))
-	mode := 2 + r.Intn(4)
+	mode := 2 + r.Intn(5)
 	var s Scenario
 	var wanted []string
-	if mode == 5 {
+	if mode == 6 {
+		// mode G: a CHAIN of two type-only converters T -> M -> U, each with
+		// a second input (the supplied flag) through which the cheapest path
+		// enters it: the T value converted at the bottom of the chain must
+		// still be the input named like the parameter
+		M := perm3[3]
+		n := names[perm[0]]
+		wanted = []string{n}
+		s.Inputs = append(s.Inputs, Label{Name: n, Type: T})
+		for j := 0; j < 1+r.Intn(3); j++ {
+			s.Inputs = append(s.Inputs, Label{Name: names[perm[1+j]], Type: T})
+		}
+		second := Label{Type: W}
+		if r.Intn(3) != 0 {
+			second.Name = "flag"
+		}
+		s.Inputs = append(s.Inputs, second)
+		in1 := []Label{{Type: T}, second}
+		in2 := []Label{{Type: M}, second}
+		if r.Intn(2) == 0 {
+			in1[0], in1[1] = in1[1], in1[0]
+		}
+		if r.Intn(2) == 0 {
+			in2[0], in2[1] = in2[1], in2[0]
+		}
+		conv1 := FuncSpec{In: in1, Out: []Label{{Type: M}}, InForm: formFor(in1, r, false), OutForm: r.Intn(3), HasErr: r.Intn(2) == 0}
+		conv2 := FuncSpec{In: in2, Out: []Label{{Type: U}}, InForm: formFor(in2, r, false), OutForm: r.Intn(3), HasErr: r.Intn(2) == 0}
+		s.Convs = []FuncSpec{conv1, conv2}
+		if r.Intn(2) == 0 {
+			s.Convs = []FuncSpec{conv2, conv1}
+		}
+		s.Target = FuncSpec{In: []Label{{Name: n, Type: U}}, InForm: 1 + r.Intn(2)}
+	} else if mode == 5 {
 		// mode F = C + E: two or three named parameters through ONE type-only
 		// converter whose second input is supplied directly
 		np := 2 + r.Intn(2)
@@ -711,6 +801,26 @@ func runC07Multi(c *CaseCtx, r *rand.Rand, names []string) (res CaseResult) {
 			return
 		}
 		// the name of the input a given execution of the main converter was fed with
+		// rootT follows provenance back to the supplied value of type T
+		var rootT func(id int64, depth int) string
+		rootT = func(id int64, depth int) string {
+			org := in.W.Origin(id)
+			if org == nil || depth > 4 {
+				return "?"
+			}
+			if org.Kind == OInput {
+				if org.Label.Type == T {
+					return org.Label.Name
+				}
+				return "?"
+			}
+			for _, f := range org.From {
+				if n := rootT(f, depth+1); n != "?" {
+					return n
+				}
+			}
+			return "?"
+		}
 		fedBy := func(e *Event) string {
 			for _, a := range e.Args {
 				if a.Param.Type == T {
@@ -718,6 +828,13 @@ func runC07Multi(c *CaseCtx, r *rand.Rand, names []string) (res CaseResult) {
 						return org.Label.Name
 					}
 					return "?"
+				}
+			}
+			if mode == 6 {
+				for _, a := range e.Args {
+					if n := rootT(a.ID, 0); n != "?" {
+						return n
+					}
 				}
 			}
 			return "?"
@@ -749,6 +866,9 @@ func runC07Multi(c *CaseCtx, r *rand.Rand, names []string) (res CaseResult) {
 					}
 					if mode == 5 {
 						key = "wrong-input-converted/several-parameters-second-input-supplied"
+					}
+					if mode == 6 {
+						key = "wrong-input-converted/chain-of-two-second-input-supplied"
 					}
 					res.violate("C07", key, fmt.Sprintf("parameter %v was converted from the input named %q instead of the input named %q", a.Param, got, a.Param.Name), det)
 				}
